@@ -38,6 +38,7 @@ OBLIGATIONS = [
     "Grog.C20.old_print_duplicate_witness",
     "Grog.C20.inverse_printed",
     "Grog.C20.changes_exact",
+    "Grog.C20.owners_noncanonical_witness",
     "Grog.C20.printedDistinct_of_labels",
 ]
 ASSUMPTIONS = [
@@ -198,6 +199,8 @@ def cli_workspace(ctx, grog, rng, w, nontrivial, stats):
     inputs = G.resolve_inputs(ws, nodes, patterns)          # package-relative resolved inputs (reference glob resolution)
     multi = sorted(f for f, pk in G.owner_packages(nodes, inputs).items() if len(pk) >= 2)
     stats["files_owned_across_packages"] = stats.get("files_owned_across_packages", 0) + len(multi)
+    odd = sorted({os.path.normpath(os.path.join(nodes[k]["pkg"], x)) for k, fl in inputs.items() for x in fl if os.path.normpath(x) != x})
+    stats["files_named_noncanonically"] = stats.get("files_named_noncanonically", 0) + len(odd)
     stats["workspaces"] += 1
     req = {"op": "graph.query", "nodes": nodes, "edges": [list(e) for e in es], "cur": "", "patterns": [],
            "tags": [t for t in G.TAGS if rng.random() < 0.1], "exclude": [t for t in G.TAGS if rng.random() < 0.1],
@@ -221,14 +224,22 @@ def cli_workspace(ctx, grog, rng, w, nontrivial, stats):
     # owners: files by workspace-relative path, given relative to the root and to a package directory
     files = []
     for _ in range(3):
-        if multi and rng.random() < 0.6:
+        r = rng.random()
+        if odd and r < 0.35:
+            files.append(rng.choice(odd))                  # a file some target names as ./x, d/../x, a//b or x/.
+        elif multi and r < 0.75:
             files.append(rng.choice(multi))                # a file in a nested package that is also an input of an enclosing package's target
         else:
             i = rng.randrange(len(nodes))
             files.append(os.path.normpath(os.path.join(nodes[i]["pkg"], rng.choice(FILES))))
-    for fset, cwd in ((files[:1], ""), (files, ""), (files[1:], rng.choice(sorted({n["pkg"] for n in nodes})))):
+    # the file arguments are given canonically and non-canonically (./x, d/../x, a//b, x/.), from the root and from a package directory
+    # (`filepath.Abs` cleans them); the model gets the cleaned workspace-relative paths
+    def spell(f, cwd):
+        rel = os.path.relpath(os.path.join(ws, f), os.path.join(ws, cwd))
+        return G.respell(rng, rel, existing_dir="zz") if rng.random() < 0.5 else rel
+    for fset, cwd in ((files[:1], ""), (files, ""), (files[1:], rng.choice(sorted({n["pkg"] for n in nodes}))), (files[:2], rng.choice(sorted({n["pkg"] for n in nodes})))):
         qs.append({"k": "owners", "files": fset})
-        clis.append((["owners"] + [os.path.relpath(os.path.join(ws, f), os.path.join(ws, cwd)) for f in fset], cwd))
+        clis.append((["owners"] + [spell(f, cwd) for f in fset], cwd))
     req["q"] = qs
     m = ctx.model([req])[0]
     bad = []
@@ -349,7 +360,8 @@ def cli_history(ctx, grog, rng, hcase, stats):
     G.populate_files(ws, nodes, files=FILES[:3])
     inputs = G.resolve_inputs(ws, nodes, patterns)
     # outputs are `.out` files so that no `*.txt` / `*.in` glob ever picks up a build product
-    commands = {i: f"echo '{G.label_str(n)}' >> '{trace}'; cat {' '.join(inputs[i])} > out_{n['name']}.out" for i, n in enumerate(nodes) if n["target"]}
+    commands = {i: f"echo '{G.label_str(n)}' >> '{trace}'; cat {' '.join(os.path.normpath(f) for f in inputs[i])} > out_{n['name']}.out"
+                for i, n in enumerate(nodes) if n["target"]}
     G.write_workspace(ws, nodes, es, inputs=patterns, commands=commands)
     # declare the output so that dependants see a changed dependency output
     import json as _json
@@ -365,7 +377,12 @@ def cli_history(ctx, grog, rng, hcase, stats):
         ctx.violation("initial build of a generated workspace failed", {"kind": "correspondence", "correspondence": "CLI history workspace", "rc": rc, "stderr": err[-1500:]}, found_input=False)
         return
     multi = sorted(f for f, pk in G.owner_packages(nodes, inputs).items() if len(pk) >= 2)
-    if multi and rng.random() < 0.7:
+    odd = sorted({os.path.normpath(os.path.join(nodes[k]["pkg"], x)) for k, fl in inputs.items() for x in fl if os.path.normpath(x) != x})
+    r = rng.random()
+    if odd and r < 0.45:
+        f = rng.choice(odd)            # a file that some target names with a non-canonical spelling (./x, d/../x, a//b, x/.)
+        stats["histories_noncanonical_input"] = stats.get("histories_noncanonical_input", 0) + 1
+    elif multi and r < 0.85:
         f = rng.choice(multi)          # a file of a nested package directory that is also an input of an enclosing package's target
         stats["histories_multi_package_file"] = stats.get("histories_multi_package_file", 0) + 1
     else:
@@ -376,7 +393,7 @@ def cli_history(ctx, grog, rng, hcase, stats):
     open(trace, "w").close()
     rc, _, err, _ = G.run_grog(grog, ["build", "//..."], ws, env, timeout=120)
     executed = set(l.strip() for l in open(trace) if l.strip())
-    owners = G.run_grog(grog, ["owners", f], ws, env)[1]
+    owners = G.run_grog(grog, ["owners", f if rng.random() < 0.5 else G.respell(rng, f, existing_dir="zz")], ws, env)[1]
     allowed = set(owners)
     for o in owners:
         allowed |= set(G.run_grog(grog, ["rdeps", "-t", o], ws, env)[1])
